@@ -32,6 +32,11 @@ fn file_of(v: &Value) -> FileDescriptorProto {
         enum_type: v["enums"].as_array().cloned().unwrap_or_default().iter().map(en_of).collect(),
         service: v["services"].as_array().cloned().unwrap_or_default().iter().map(|s| ServiceDescriptorProto { name: Some(s["name"].as_str().unwrap().to_string()),
             method: names(&s["methods"]).into_iter().map(|n| MethodDescriptorProto { name: Some(n), input_type: Some(".x".into()), output_type: Some(".x".into()), ..Default::default() }).collect(), options: None }).collect(),
+        // what protoc --include_source_info adds (and prost-build / tonic-build always ask for): comments and spans; part of the descriptor
+        // that was registered, hence of the one that is served
+        source_code_info: if v["name"].as_str().unwrap_or("").len() % 2 == 0 { Some(SourceCodeInfo { location: vec![
+            source_code_info::Location { path: vec![4, 0], span: vec![3, 0, 7, 1], leading_comments: Some(" a message\n".into()), trailing_comments: None, leading_detached_comments: vec![" detached\n".into()] },
+            source_code_info::Location { path: vec![12], span: vec![0, 0, 18], ..Default::default() }] }) } else { None },
         syntax: Some("proto3".into()), ..Default::default() }
 }
 
